@@ -141,6 +141,30 @@ func (f *flusher) abort(key string) {
 	delete(f.blobs, key)
 }
 
+// Reports whether b is still the entry tracked for its key, i.e. abort was not called for it. If it is not, the blob was
+// deleted (and the key possibly re-created and marked dirty again) while b was being flushed, so neither the disk entry,
+// the tracked entry nor the eviction ban of that key belong to b anymore. f.mu must be held; every mutation that a flush
+// of b makes to a key's shared state must happen while f.mu is held and b is current.
+func (f *flusher) isCurrent(b *blob) bool {
+	cur, ok := f.blobs[b.key]
+	return ok && cur == b
+}
+
+// Stops tracking b and lifts the eviction ban taken for it. No-op if b was aborted. f.mu must be held.
+func (f *flusher) untrackAndUnban(b *blob) {
+	if !f.isCurrent(b) {
+		return
+	}
+	delete(f.blobs, b.key)
+	err := f.mem.UnbanEviction(b.key) // prevent leak
+	if err != nil && !errors.Is(err, os.ErrNotExist) {
+		f.log.With(
+			"key", b.key,
+			"error", fmt.Errorf("mem store unban eviction: %w", err),
+		).Error("Leaked blob to mem store after flushing")
+	}
+}
+
 func (f *flusher) worker() {
 	for {
 		select {
@@ -176,16 +200,6 @@ func (f *flusher) nextToFlush() (b *blob, ok bool) {
 
 func (f *flusher) flush(b *blob) {
 	key := b.key
-	defer func() {
-		err := f.mem.UnbanEviction(key) // prevent leak
-		if err != nil {
-			f.log.With(
-				"key", key,
-				"error", fmt.Errorf("mem store unban eviction: %w", err),
-			).Error("Leaked blob to mem store while trying to abort flushing")
-		}
-	}()
-
 	if b.dataDirty {
 		if err := f.flushData(b); err != nil {
 			err = fmt.Errorf("flush data: %w", err)
@@ -193,7 +207,7 @@ func (f *flusher) flush(b *blob) {
 				"key", key,
 				"error", err,
 			).Error("Could not flush data from mem to disk, abandoning flushing operation")
-			f.handleFlushFailure(key)
+			f.handleFlushFailure(b)
 			return
 		}
 	}
@@ -204,24 +218,28 @@ func (f *flusher) flush(b *blob) {
 			"key", key,
 			"error", err,
 		).Error("Could not flush metadata from mem to disk, abandoning flushing operation")
-		f.handleFlushFailure(key)
+		f.handleFlushFailure(b)
 	}
 }
 
 // Tries to prevent corrupt state in disk store upon failed flush. To do so, the flush to disk is aborted,
 // simulating similar behavior to the file being flushed and subsequently evicted by the disk store's LRU policy.
 // This will break any open [File] handles to the blob after eviction from memory, but it's the best we can do.
-func (f *flusher) handleFlushFailure(key string) {
+func (f *flusher) handleFlushFailure(b *blob) {
+	f.mu.Lock()
+	defer f.mu.Unlock()
+
+	if !f.isCurrent(b) {
+		return // Aborted meanwhile: whatever is on disk under this key now is not ours to delete.
+	}
+	key := b.key
 	if err := f.disk.Delete(key); err != nil && !errors.Is(err, os.ErrNotExist) {
 		f.log.With(
 			"key", key,
 			"error", err).
 			Error("Could not clean disk entry after flushing failed, blob is now leaked in disk store")
 	}
-
-	f.mu.Lock()
-	defer f.mu.Unlock()
-	delete(f.blobs, key)
+	f.untrackAndUnban(b)
 }
 
 func (f *flusher) flushMetadatasAndUnmarkDirty(key string, b *blob) error {
@@ -232,7 +250,7 @@ func (f *flusher) flushMetadatasAndUnmarkDirty(key string, b *blob) error {
 		b.mu.Unlock()
 
 		for mdSuffix := range dirtyMDSnapshot {
-			err := f.flushMetadata(key, mdSuffix)
+			err := f.flushMetadata(b, mdSuffix)
 			if err != nil {
 				f.log.With(
 					"key", key,
@@ -246,7 +264,7 @@ func (f *flusher) flushMetadatasAndUnmarkDirty(key string, b *blob) error {
 		f.mu.Lock()
 		b.mu.Lock()
 		if len(b.dirtyMD) == 0 {
-			delete(f.blobs, key)
+			f.untrackAndUnban(b)
 			b.mu.Unlock()
 			f.mu.Unlock()
 			return nil
@@ -256,7 +274,15 @@ func (f *flusher) flushMetadatasAndUnmarkDirty(key string, b *blob) error {
 	}
 }
 
-func (f *flusher) flushMetadata(key, mdSuffix string) error {
+func (f *flusher) flushMetadata(b *blob, mdSuffix string) error {
+	key := b.key
+	// Reading from mem and writing to disk must not interleave with the key being deleted and re-created.
+	f.mu.Lock()
+	defer f.mu.Unlock()
+	if !f.isCurrent(b) {
+		return nil
+	}
+
 	md := metadata.CreateFromSuffix(mdSuffix)
 	ok, err := f.mem.GetMetadata(key, md)
 	if errors.Is(err, os.ErrNotExist) {
@@ -296,26 +322,18 @@ func (f *flusher) flushData(b *blob) error {
 		return fmt.Errorf("mem store open: %w", err)
 	}
 	defer closers.Close(memF)
+	f.mu.Lock()
+	if !f.isCurrent(b) {
+		// abort was called before we created the file.
+		f.mu.Unlock()
+		return nil
+	}
 	diskF, err := f.disk.Create(key, b.dataSize)
+	f.mu.Unlock()
 	if err != nil {
 		return fmt.Errorf("disk store create: %w", err)
 	}
 	defer closers.Close(diskF)
-	f.mu.Lock()
-	_, ok := f.blobs[b.key]
-	if !ok {
-		// abort was called before we created the file, we need to cleanup.
-		err := f.disk.Delete(key)
-		if err != nil && !errors.Is(err, os.ErrNotExist) {
-			f.log.With(
-				"key", key,
-				"error", err).
-				Error("Could not clean disk entry after flushing failed, blob is now leaked in disk store")
-		}
-		f.mu.Unlock()
-		return nil
-	}
-	f.mu.Unlock()
 	_, err = ioCopy(diskF, memF)
 	if errors.Is(err, memory.ErrEvicted) {
 		return nil
@@ -323,7 +341,15 @@ func (f *flusher) flushData(b *blob) error {
 	if err != nil {
 		return fmt.Errorf("io copy from mem file to disk file: %w", err)
 	}
+	f.mu.Lock()
+	if !f.isCurrent(b) {
+		// abort was called while copying: the disk entry was deleted by the caller of abort, and the
+		// key may have been re-created since.
+		f.mu.Unlock()
+		return nil
+	}
 	err = f.disk.MarkComplete(key)
+	f.mu.Unlock()
 	if errors.Is(err, os.ErrNotExist) {
 		return nil
 	}
